@@ -108,13 +108,24 @@ T_EQ = 20
 T_NEW = 2 * (2200000000 - BASE_S)      # year 2039: newer than anything the wall clock stamps during the run
 
 
+FMODES = ["exit1", "exit255", "ABRT", "SEGV", "TERM"]
+
+
+def die_snippet(flag):
+    """shell (ninja-escaped): end the spawned /bin/sh the way the flag file says: exit 1, exit 255, or killed by the named signal"""
+    return ("case $$(cat %s) in exit1) exit 1;; exit255) exit 255;; *) ulimit -c 0; kill -$$(cat %s) $$$$; sleep 5; exit 1;; esac" % (flag, flag))
+
+
 def table_manifest(case, variant):
     nouts = case["nouts"]
     mode = case.get("inputs", "normal")      # normal | epoch0 (inputs stamped 0.0) | none (no input at all) | oo_only (only an order-only input)
     if mode in ("none", "oo_only"):
-        tcmd = "echo T >> runlog; test ! -e Tfail && echo made > out1" + (" && echo made > out2" if nouts == 2 else "")
+        body = "echo made > out1" + (" && echo made > out2" if nouts == 2 else "")
     else:
-        tcmd = "echo T >> runlog; test ! -e Tfail && cat e1 e2 > out1" + (" && cat e1 > out2" if nouts == 2 else "")
+        body = "cat e1 e2 > out1" + (" && cat e1 > out2" if nouts == 2 else "")
+    # Tfail present: the command fails in the mode the file names - before doing anything, or (Tlate) after writing its outputs
+    tcmd = "echo T >> runlog; if test -e Tfail && test ! -e Tlate; then %s; fi; %s && if test -e Tfail; then %s; fi" % (
+        die_snippet("Tfail"), body, die_snippet("Tfail"))
     if variant == 2:
         tcmd += " && true v2"
     lines = ["rule T", "  command = " + tcmd]
@@ -122,8 +133,8 @@ def table_manifest(case, variant):
         lines.append("  generator = 1")
     if case["restat"]:
         lines.append("  restat = 1")
-    lines += ["rule U", "  command = echo U >> runlog; test ! -e Ufail && if test -e Unoout; then true; else cat usrc > e2; fi",
-              "rule O", "  command = echo O >> runlog; test ! -e Ofail && cat osrc > oo"]
+    lines += ["rule U", "  command = echo U >> runlog; if test -e Ufail; then %s; fi; if test -e Unoout; then true; else cat usrc > e2; fi" % die_snippet("Ufail"),
+              "rule O", "  command = echo O >> runlog; if test -e Ofail; then %s; fi; cat osrc > oo" % die_snippet("Ofail")]
     if case["e2"].startswith("up_"):
         lines.append("build e2: U usrc")
     if case["oo"].startswith("up_"):
@@ -179,14 +190,22 @@ def table_case(llb, d, case):
     if prior != "none":
         open(J("build.ninja"), "w").write(table_manifest(case, 3 if prior == "ok_rewired" else 1))
         if prior == "failed":
-            open(J("Tfail"), "w").close()
+            open(J("Tfail"), "w").write(case.get("fmode", "exit1") + "\n")
+            if case.get("flate"):
+                open(J("Tlate"), "w").close()
         if prior == "skipped":
             rm(J("e1"))
         rc, ran, txt = build(llb, d, ["-j1"])
         log.append(("phase1", rc, ran))
         if prior == "failed":
             rm(J("Tfail"))
+            rm(J("Tlate"))
             prior_val = "F"
+            if rc == 0 and "T" in ran:
+                return dict(error="phase 1 did not fail as arranged", log=log, text=txt[-600:],
+                            finding=("failure-not-reported", "the command %s%s, but the build exited with status 0" % (
+                                {"exit1": "exited with status 1", "exit255": "exited with status 255"}.get(case.get("fmode", "exit1"), "was killed by SIG" + case.get("fmode", "")),
+                                " after writing its output" if case.get("flate") else "")))
             if rc == 0 or "T" not in ran:
                 return dict(error="phase 1 did not fail as arranged", log=log, text=txt[-600:])
         elif prior == "skipped":
@@ -212,7 +231,7 @@ def table_case(llb, d, case):
     elif k == "up_ok_new":
         rm(J("e2")); changed["e2"] = 1
     elif k == "up_fail":
-        rm(J("e2")); open(J("Ufail"), "w").close(); changed["e2"] = 1
+        rm(J("e2")); open(J("Ufail"), "w").write(case.get("fmode", "exit1") + "\n"); changed["e2"] = 1
     elif k == "up_skip":
         rm(J("e2")); rm(J("usrc")); changed["e2"] = 1
     elif k == "up_noout":
@@ -232,7 +251,7 @@ def table_case(llb, d, case):
     elif k == "up_ok_new":
         rm(J("oo")); changed["oo"] = 1
     elif k == "up_fail":
-        rm(J("oo")); open(J("Ofail"), "w").close(); changed["oo"] = 1
+        rm(J("oo")); open(J("Ofail"), "w").write(case.get("fmode", "exit1") + "\n"); changed["oo"] = 1
     if prior == "ok_rewired":
         # the engine re-scans the dependency list RECORDED by the previous build: inputs added by the rewiring are unknown to it
         changed["imp"] = 0
@@ -370,6 +389,15 @@ def table_cases(chk):
                     for outs in (["untouched"], ["missing"], ["fresh"], ["equal"], ["untouched", "missing"], ["missing", "untouched"], ["fresh", "missing"]):
                         core.append(dict(prior=prior, generator=gen, strict=strict, restat=0, nouts=len(outs), outs=list(outs), e2="src_old", imp="none",
                                          oo=("src_old" if mode == "oo_only" else "none"), k0=0, inputs=mode))
+    # failure MODES: exit 1, exit 255, killed by SIGABRT / SIGSEGV / SIGTERM, each also after the output was written; of the
+    # command under test in the previous build (must be retried) and of an upstream command in this build (must stop it)
+    for fm in FMODES:
+        for flate in (0, 1):
+            for ost in ("untouched", "fresh"):
+                core.append(dict(prior="failed", generator=0, strict=0, restat=0, nouts=1, outs=[ost], e2="src_old", imp="none", oo="none", k0=0, fmode=fm, flate=flate))
+        for k0 in (0, 1):
+            core.append(dict(prior="ok", generator=0, strict=0, restat=0, nouts=1, outs=["untouched"], e2="up_fail", imp="none", oo="none", k0=k0, fmode=fm))
+            core.append(dict(prior="ok", generator=0, strict=0, restat=0, nouts=1, outs=["untouched"], e2="src_old", imp="none", oo="up_fail", k0=k0, fmode=fm))
     # deviations of the current code that the table must reach
     core.append(dict(prior="failed", generator=1, strict=0, restat=0, nouts=1, outs=["fresh"], e2="src_old", imp="none", oo="none", k0=0))
     core.append(dict(prior="ok", generator=0, strict=0, restat=0, nouts=1, outs=["fresh"], e2="missing", imp="none", oo="none", k0=0))
@@ -382,6 +410,9 @@ def table_cases(chk):
         extra.append(dict(prior=rng.choice(PRIORS), generator=rng.choice([0, 0, 1]), strict=rng.choice([0, 0, 1]), restat=rng.choice([0, 0, 1]),
                           nouts=nouts, outs=[rng.choice(OUT_STATES) for _ in range(nouts)], e2=rng.choice(E2_KINDS),
                           imp=rng.choice(IMP_KINDS), oo=rng.choice(OO_KINDS), k0=rng.choice([0, 0, 1])))
+        if rng.random() < 0.3:
+            extra[-1]["fmode"] = rng.choice(FMODES)
+            extra[-1]["flate"] = rng.choice([0, 1])
         if rng.random() < 0.15:
             e = extra[-1]
             e["inputs"] = rng.choice(["none", "oo_only", "epoch0"])
@@ -396,7 +427,7 @@ def table_cases(chk):
     if chk.quick():
         # the quick tier keeps the named cases and a stratified half of the systematic core
         keep = [c for i, c in enumerate(core) if i % 2 == 0 or c["prior"] in ("failed", "ok_rewired") or c["e2"] == "missing"
-                or (c.get("inputs", "normal") != "normal" and c["prior"] == "ok" and "missing" in c["outs"])]
+                or (c.get("inputs", "normal") != "normal" and c["prior"] == "ok" and "missing" in c["outs"]) or "fmode" in c]
         core = keep
     seen, cases = set(), []
     for c in core + extra:
@@ -408,7 +439,7 @@ def table_cases(chk):
 
 
 def case_key(c):
-    return (c["prior"], c["generator"], c["strict"], c["restat"], c["nouts"], tuple(c["outs"]), c["e2"], c["imp"], c["oo"], c["k0"], c.get("inputs", "normal"))
+    return (c["prior"], c["generator"], c["strict"], c["restat"], c["nouts"], tuple(c["outs"]), c["e2"], c["imp"], c["oo"], c["k0"], c.get("inputs", "normal"), c.get("fmode", "exit1"), c.get("flate", 0))
 
 
 def deviation(chk, key, what, replay):
@@ -429,6 +460,10 @@ def run_table(chk, llb, model, base):
             results[i] = r
     good = [(c, r) for (c, r) in zip(cases, results) if "error" not in r]
     bad = [(c, r) for (c, r) in zip(cases, results) if "error" in r]
+    for (c, r) in bad:
+        if r.get("finding"):
+            chk.violation(r["finding"][0], "decision table, first build of a scenario: " + r["finding"][1], dict(case=c, phases=r.get("log"), output_tail=r.get("text")),
+                          found_input=True, broken="c18 oracle on llbuild ninja build (decision table)")
     if bad:
         chk.notes["table_setup_failures"] = [dict(case=c, error=r["error"], log=r.get("log"), text=r.get("text")) for (c, r) in bad[:5]]
         setup_failure = ("table-setup", "%d decision-table scenarios could not be arranged (phase 1 did not behave as the scenario needs)" % len(bad),
@@ -497,8 +532,9 @@ def run_table(chk, llb, model, base):
 CMD_SH = r"""#!/bin/sh
 # cmd.sh NAME TAG KIND NOUT out... -- in... [-H hdr...]
 # deterministic command of the generated manifests: every output = its own name, NAME TAG, then the inputs and
-# headers concatenated.  Fails (before writing anything) iff an input or header contains the line FAIL; fails AFTER
-# writing and stamping its outputs iff one contains the line FAILLATE (compile, then validate).
+# headers concatenated.  Fails iff an input or header contains a line FAIL:<when>:<how>: when = early (before writing
+# anything) or late (after writing and stamping the outputs: compile, then validate); how = exit1, exit255, or a signal name
+# (ABRT, SEGV, TERM): the process - the one llbuild spawned, the command lines `exec` this script - kills itself.
 # restat: an output whose content would not change is left alone.  depfile: writes <first output>.d.
 # Outputs that were written are stamped with the next tick of the sandbox's logical clock.
 name=$1; tag=$2; kind=$3; n=$4; shift 4
@@ -510,11 +546,20 @@ for a in "$@"; do
   if [ "$a" = "-H" ]; then h=1; elif [ $h = 1 ]; then hdrs="$hdrs $a"; else ins="$ins $a"; fi
 done
 echo "$name" >> runlog
-late=0
+mark=""
 for f in $ins $hdrs; do
-  if grep -qx FAIL "$f"; then exit 1; fi
-  if grep -qx FAILLATE "$f"; then late=1; fi
+  if l=$(grep -m1 '^FAIL:' "$f" 2>/dev/null); then mark=$l; break; fi
 done
+when=""; how=""
+if [ -n "$mark" ]; then when=${mark#FAIL:}; how=${when#*:}; when=${when%%:*}; fi
+die() {
+  case "$how" in
+    exit1) exit 1;;
+    exit255) exit 255;;
+    *) ulimit -c 0; kill -$how $$; sleep 5; exit 1;;
+  esac
+}
+if [ "$when" = early ]; then die; fi
 tmp=.tmp.$name
 { echo "$name $tag"; cat /dev/null $ins $hdrs; } > $tmp || { rm -f $tmp; exit 1; }
 touched=""
@@ -530,8 +575,10 @@ if [ -n "$touched" ]; then
   exec 9>>.clock.lock; flock 9
   t=$(cat .clock); t=$((t+1)); echo $t > .clock
   touch -d "@$((%d + t / 2)).$(( (t %% 2) * 5 ))00000000" $touched
+  exec 9>&-
 fi
-exit $late
+if [ "$when" = late ]; then die; fi
+exit 0
 """ % BASE_S
 
 
@@ -576,7 +623,7 @@ class World:
 
     def command_line(self, c):
         rd = self.files_read(c)
-        return "./cmd.sh %s t%d %s %d %s -- %s%s" % (c.name, c.tag, c.kind, len(c.outs), " ".join(c.outs), " ".join(rd),
+        return "exec ./cmd.sh %s t%d %s %d %s -- %s%s" % (c.name, c.tag, c.kind, len(c.outs), " ".join(c.outs), " ".join(rd),
                                                     (" -H " + " ".join(c.hdrs)) if c.hdrs else "")
 
     def manifest(self):
@@ -638,7 +685,7 @@ class World:
         else:
             c = prod[node]
             parts = [self.expected_content(i, memo) for i in self.files_read(c) + c.hdrs]
-            if any(p is None for p in parts) or any("FAIL" in p.split("\n") or "FAILLATE" in p.split("\n") for p in parts):
+            if any(p is None for p in parts) or any(l.startswith("FAIL:") for p in parts for l in p.split("\n")):
                 r = None
             else:
                 r = "== %s\n%s t%d\n%s" % (node, c.name, c.tag, "".join(parts))
@@ -942,8 +989,9 @@ def apply_op(rng, w, sb_list, nops_done):
             return None
         n = rng.choice(cands)
         late = rng.random() < 0.5
-        op.update(node=n, saved=w.src[n], failing=[c.name for c in readers(n, ("exp", "imp"))], late=late)
-        w.src[n] = "FAILLATE\n" if late else "FAIL\n"
+        how = rng.choice(["exit1", "exit1", "exit255", "ABRT", "SEGV", "TERM"])
+        op.update(node=n, saved=w.src[n], failing=[c.name for c in readers(n, ("exp", "imp"))], late=late, how=how)
+        w.src[n] = "FAIL:%s:%s\n" % ("late" if late else "early", how)
         for sb in sb_list:
             sb.write_source(n, w.src[n])
     for sb in sb_list:
@@ -1137,7 +1185,7 @@ def history(llb, d, seed, jobs, db, keep_going, with_ninja, want_clean):
         if op is None:
             continue
         done += 1
-        stats["nontrivial"].add((op["kind"], jobs, db, keep_going))
+        stats["nontrivial"].add((op["kind"] + (":%s:%s" % ("late" if op["late"] else "early", op["how"]) if op["kind"] == "fail" else ""), jobs, db, keep_going))
         record("op", **{("op" if k == "kind" else k): v for k, v in op.items() if k != "saved"})
         if op["kind"] == "fail":
             rc, ran, txt, nran = build_all("with a failing command")
@@ -1145,7 +1193,9 @@ def history(llb, d, seed, jobs, db, keep_going, with_ninja, want_clean):
             deps = w.dependents(failing)
             hard = w.hard_dependents(failing)
             if rc == 0:
-                findings.append(("failure-not-reported", "a command failed (input %s contains FAIL) but the build exited with status 0" % op["node"], rp(dict(ran=ran, text=txt[-800:]))))
+                findings.append(("failure-not-reported", "command(s) %s %s%s, but the build exited with status 0 (ran %s)" % (
+                    sorted(failing & set(ran)), {"exit1": "exited with status 1", "exit255": "exited with status 255"}.get(op["how"], "were killed by SIG" + op["how"]),
+                    " after writing their outputs" if op["late"] else "", ran), rp(dict(ran=ran, text=txt[-800:]))))
                 break
             if not (failing & set(ran)):
                 findings.append(("failing-command-not-run", "none of the commands reading the edited input %s ran" % op["node"], rp(dict(ran=ran, failing=sorted(failing)))))
@@ -1361,6 +1411,44 @@ def scripted(llb, base):
                 out.append(("repair-does-not-converge", "after repairing the source: exit status %d, final = %r" % (log[2][0], fin), rpl(d, log)))
             elif variant != "nodb" and (log[3][0] != 0 or log[3][1]):
                 out.append(("null-build-runs", "fail-after-output scenario: the immediate rebuild after the repair ran %s" % log[3][1], rpl(d, log)))
+    # -- failure MODES of the spawned process (seed C18-6): exit 1, exit 255, killed by SIGABRT / SIGSEGV / SIGTERM, before or
+    #    after writing the output.  Same oracles for all: non-zero exit status, dependent not run, retried, converges after repair
+    TOOL = ("#!/bin/sh\necho \"$2\" >> runlog\n"
+            "die() { case $(cat crash.mode) in exit1) exit 1;; exit255) exit 255;; *) ulimit -c 0; kill -$(cat crash.mode) $$; sleep 5; exit 1;; esac; }\n"
+            "if [ -e crash.mode ] && [ ! -e late.flag ]; then die; fi\ncat \"$1\" > \"$2\"\nif [ -e crash.mode ]; then die; fi\nexit 0\n")
+    M = ("rule tool\n  command = exec ./tool $in $out\nrule cat\n  command = cat $in > $out && echo $out >> runlog\n"
+         "build mid: tool src\nbuild fin: cat mid\ndefault fin\n")
+    for fm in FMODES:
+        for late in (0, 1):
+            files = {"src": ("hello\n", 10), "tool": (TOOL, 10), "crash.mode": (fm + "\n", 10)}
+            if late:
+                files["late.flag"] = ("", 10)
+            d = sandbox("failmode-%s-%d" % (fm, late), M, files)
+            os.chmod(os.path.join(d, "tool"), 0o755)
+            how = {"exit1": "exits with status 1", "exit255": "exits with status 255"}.get(fm, "is killed by SIG" + fm) + (" after writing its output" if late else "")
+            log = [build(llb, d, ["-j1"]), build(llb, d, ["-j1"])]
+            hist = ["build (the tool %s)" % how, "build (nothing edited)", "repair", "build", "build"]
+            bad = None
+            for i in (0, 1):
+                rc, ran, txt = log[i]
+                if "mid" not in ran:
+                    bad = ("failed-not-retried" if i else "scripted-setup", "build %d did not run the tool (ran %s, exit status %d)" % (i + 1, ran, rc))
+                elif "fin" in ran or os.path.exists(os.path.join(d, "fin")):
+                    bad = ("failed-dependent-ran", "build %d: the dependent of a command that %s was executed (ran %s, exit status %d)" % (i + 1, how, ran, rc))
+                elif rc == 0:
+                    bad = ("failure-not-reported", "build %d: a command that %s, yet the build exited with status 0 (ran %s)" % (i + 1, how, ran))
+                if bad:
+                    break
+            if not bad:
+                rm(os.path.join(d, "crash.mode"))
+                log += [build(llb, d, ["-j1"]), build(llb, d, ["-j1"])]
+                fin = open(os.path.join(d, "fin")).read() if os.path.exists(os.path.join(d, "fin")) else None
+                if log[2][0] != 0 or fin != "hello\n":
+                    bad = ("repair-does-not-converge", "after the tool was repaired: exit status %d, fin = %r" % (log[2][0], fin))
+                elif log[3][0] != 0 or log[3][1]:
+                    bad = ("null-build-runs", "failure-mode scenario: the immediate rebuild after the repair ran %s" % log[3][1])
+            if bad:
+                out.append((bad[0], bad[1], rpl(d, log, history=hist, failure_mode=fm, after_output=bool(late))))
     # -- the generated-header shape: a header produced by another command, declared ORDER-ONLY (so that it exists before the
     #    first compile) and named by the compiler's depfile; regenerating it must re-run the compile (seed C18-2).
     #    Same with a plain source header that is declared order-only and named by the depfile.
